@@ -99,4 +99,4 @@ class DeletionKeepMask(FragmentContract):
 
 
 def register(world):
-    world.contracts[DeletionKeepMask.key] = DeletionKeepMask()
+    world.register_fragment(DeletionKeepMask())
